@@ -32,6 +32,8 @@ def main(run: Run):
         "dict.values() / generator / for-loop semantics of CPython (each element visited once, in order)"]
     run.trusted_base += ["pyvc VC generator (vf/pyvc/engine.py)", "z3 5.1 / cvc5 1.0", "contracts of _RangeMap.get/items proved in C02"]
     discharge_all(run, obs, timeout_ms=30000)
+    from . import memtrees
+    memtrees.run_bounded(run, "tree", run.tier, forced=bool(run.undecided) or any(o.status == "undecided" for o in run.obligations))
     for o in obs[:6]:
         run.sample(f"{o.fn}::{o.clause}::{o.label}")
     return run.finish(
